@@ -5,7 +5,7 @@
     of each byte first). *)
 From Coq Require Import ZArith List Bool.
 From Low Require Import Lib.Bits Lib.BitSeq Lib.Lex Lib.Bytes Model.Sigbits Spec.SigbitsSpec
-  Proofs.SigbitsFirstDiff.
+  Proofs.SigbitsFirstDiff Proofs.SigbitsCountPrefixes.
 Import ListNotations.
 Open Scope Z_scope.
 
@@ -25,3 +25,62 @@ Example C16_FirstDiffBits_nonvacuous :
   keys <> [] /\ keys_okb keys = true /\
   FirstDiffBits keys = Some [0; 72; 79] /\ spec_FirstDiffBits keys = [0; 72; 79].
 Proof. split; [discriminate|]. vm_compute. intuition congruence. Qed.
+
+(** New(keys).CountPrefixes(s, e, m) for strictly ascending keys (Go string order), a range of at
+    least two keys and m >= 1: it does not panic and returns [spec_CountPrefixes keys s e m] =
+    (the smallest first-difference bit m0 within keys[s:e], the m counters whose i-th is the number
+    of distinct (m0+i)-bit truncations of the bit strings of keys[s:e], a shorter key counting as
+    itself).  Unbounded in the number and lengths of keys, in the range and in m; [keys_i32] is Go's
+    own int32 range for bit positions (8*len(key) <= 2^31-1). *)
+Theorem C16_CountPrefixes : forall keys s e m,
+  keys_ok keys -> strict_asc keys -> keys_i32 keys ->
+  0 <= s -> s + 2 <= e -> e <= zlen keys -> 1 <= m ->
+  exists sb, New keys = Some sb /\ sb_keys sb = keys /\ sb_sigbits sb = spec_FirstDiffBits keys /\
+             CountPrefixes sb s e m = Some (spec_CountPrefixes keys s e m).
+Proof. exact CountPrefixes_exact. Qed.
+Print Assumptions C16_CountPrefixes.
+
+(** the unexported worker on the first differences of any sub-range *)
+Theorem C16_countPrefixes_sub : forall keys s e m,
+  keys_ok keys -> strict_asc keys -> keys_i32 keys ->
+  0 <= s -> s + 2 <= e -> e <= zlen keys -> 1 <= m ->
+  countPrefixes (spec_FirstDiffBits (sub_keys keys s e)) m = Some (spec_CountPrefixes keys s e m).
+Proof. exact countPrefixes_sub_exact. Qed.
+Print Assumptions C16_countPrefixes_sub.
+
+(** the specification value read clause by clause, in the words of the property: m0 is the minimum of
+    the first-difference bits of keys[s:e]; there are m counters; the i-th is the number of distinct
+    (m0+i)-bit truncations ([nodup] = distinct values, [firstn] keeps a shorter bit string whole) *)
+Theorem C16_spec_CountPrefixes_meaning : forall keys s e m, 0 <= m ->
+  let ks := sub_keys keys s e in
+  let m0 := fst (spec_CountPrefixes keys s e m) in
+  let cs := snd (spec_CountPrefixes keys s e m) in
+  m0 = list_min (spec_FirstDiffBits ks) /\
+  zlen cs = m /\
+  forall i, (i < Z.to_nat m)%nat ->
+    nth i cs 0 = zlen (nodup bits_eq_dec (map (fun k => firstn (Z.to_nat (m0 + Z.of_nat i)) (msb_bits k)) ks)).
+Proof. exact spec_CountPrefixes_meaning. Qed.
+Print Assumptions C16_spec_CountPrefixes_meaning.
+
+(** [list_min] of a non-empty list is its least element *)
+Theorem C16_spec_min_meaning : forall ds, ds <> [] ->
+  In (list_min ds) ds /\ forall d, In d ds -> list_min ds <= d.
+Proof. exact list_min_meaning. Qed.
+Print Assumptions C16_spec_min_meaning.
+
+(** non-vacuity: 5 ascending keys incl. the empty key, a key followed by itself + NUL and a shared
+    prefix of 9 bytes; a sub-range not starting at 0; m = 9 counters *)
+Example C16_CountPrefixes_nonvacuous :
+  let keys := [[]; [97]; [97;0]; [97;97;97;97;97;97;97;97;97;0]; [97;97;97;97;97;97;97;97;97;1]; [98]] in
+  keys_ok keys /\ strict_asc keys /\ keys_i32 keys /\ (0 <= 1 /\ 1 + 2 <= 6 /\ 6 <= zlen keys /\ 1 <= 9) /\
+  (exists sb, New keys = Some sb /\ CountPrefixes sb 1 6 9 = Some (6, [1; 2; 2; 3; 4; 4; 4; 4; 4])) /\
+  spec_CountPrefixes keys 1 6 9 = (6, [1; 2; 2; 3; 4; 4; 4; 4; 4]).
+Proof.
+  cbv zeta.
+  split; [apply keys_okb_ok; reflexivity|].
+  split; [apply strict_ascb_ok; reflexivity|].
+  split; [repeat constructor; vm_compute; discriminate|].
+  split; [vm_compute; intuition congruence|].
+  split; [eexists; split; vm_compute; reflexivity|].
+  vm_compute. reflexivity.
+Qed.
